@@ -231,6 +231,25 @@ def run(ctx):
             ctx.oracle("no-secular-energy-drift", second <= 3 * first + 1e-12, dict(kind="energy", method=cls.__name__, hamiltonian=hname, ordering=ordering, first_half=first, second_half=second),
                        what="energy error grows: max %.2e in the first half, %.2e in the second half of the run" % (first, second))
             ctx.count("energy:" + cls.__name__)
+    # theorem kdk_modified_energy_invariant on the implementation: the shipped kick-drift-kick scheme conserves the modified energy
+    # p^2 + (1 - h^2/4) q^2 of the harmonic oscillator exactly (to rounding), whatever the step and however long the run
+    for h in (0.05, 0.5, 1.5, -0.25):
+        n = 400 if ctx.quick() else 4000
+        ode = de.OdeSystem(lambda t, y: np.array([y[1], -y[0]]), y0=np.array([0.3, 0.7]), t=(0.0, n * h), dt=h)
+        ode.set_method(I.SymplecticEulerSolver, staggered_mask=np.array([False, True]))
+        try:
+            ode.integrate()
+            ys = np.array(ode.y)[:-1]          # the last step may be a clipped one (another h)
+            Hm = ys[:, 1] ** 2 + (1 - h * h / 4) * ys[:, 0] ** 2
+            dev = float(np.max(np.abs(Hm - Hm[0])))
+            E = ys[:, 1] ** 2 + ys[:, 0] ** 2
+            ctx.oracle("modified-energy-conserved", dev <= 1e-12 * n, dict(kind="modified-energy", method="SymplecticEulerSolver", h=h, steps=n, deviation=dev),
+                       what="the modified energy of the harmonic oscillator moved by %.2e over %d steps of %g" % (dev, n, h))
+            ctx.oracle("energy-bounded-for-all-times", float(np.max(E)) <= E[0] / (1 - h * h / 4) * (1 + 1e-9), dict(kind="modified-energy", h=h, steps=n, max_energy=float(np.max(E)), bound=float(E[0] / (1 - h * h / 4))),
+                       what="energy %.6g exceeds the proved bound E0 / (1 - h^2/4) = %.6g" % (float(np.max(E)), float(E[0] / (1 - h * h / 4))))
+        except Exception as e:
+            ctx.oracle("long-run", False, dict(kind="modified-energy", h=h), what="raised %r" % (e,))
+        ctx.count("modified-energy")
     ctx.sample(dict(kind="symplectic", methods=[c.__name__ for c, _ in methods], hamiltonians=[h[0] for h in hamiltonians()]))
     # the splitting step vs the Lean model (shared with C02)
     import p_c02
